@@ -84,6 +84,11 @@ def chase(t):
     return t
 
 
+def const_arg(t):
+    t = chase(t)
+    return isinstance(t, tuple) and t and t[0] == "const"
+
+
 def no_yield(p):
     return not any(e["kind"] == "yield" for e in p.events)
 
@@ -740,6 +745,56 @@ def check_make_credential(paths, ctx, want):
             rep = chase(new[-1][1]["args"][1])
             if rep != ts[0][1]["ret"] and not contains(rep, ts[0][1]["ret"]):
                 F.append(Finding("C08", "mc.reported-counter", "registration reports %s, not the counter stored with the credential" % tstr(rep)[:80], None, None, p))
+
+        if "C02" in want:
+            ca = calls(p, "choose_algorithm")
+            for i, e in ca:
+                src = chase(e["args"][1])
+                if src[0] == "via":
+                    src = chase(src[2])
+                if not ctx.is_input_ref(src, ctx.mc["pub_key_cred_params"]):
+                    F.append(Finding("C02", "mc.algorithm-list-source", "choose_algorithm is not given the request's pubKeyCredParams (%s)" % tstr(src)[:80], None, None, p))
+            if kind == "Err" and "UnsupportedAlgorithm" in tstr(payload) and (muts or keygen):
+                F.append(Finding("C02", "mc.unsupported-algorithm-late", "UnsupportedAlgorithm is reported after key generation or a store mutation", mc_scenario(p, ctx),
+                                 lambda o: any(c["call"] == "save" for c in o["log"]), p))
+            if ca and ret_discr(p, ca[0][1]["ret"]) == 1 and not (kind == "Err" and derives_from(payload, ca[0][1]["ret"], p)):
+                sc = mc_scenario(p, ctx)
+                F.append(Finding("C02", "mc.unsupported-algorithm-not-reported", "no supported algorithm, but the result is %s" % tstr(payload)[:60], sc,
+                                 lambda o: o["result"] != {"err": 0x26}, p))
+            if kind == "Ok":
+                fsk = calls(p, "from_secret_key")
+                rv = [(i, e) for i, e in ev if e["callee"].endswith("random_vec")]
+                if len(save) != 1 or not fsk or not rv or not ca:
+                    raise Shape("successful registration without the expected key generation / save events")
+                if not derives_from(fsk[0][1]["args"][1], ca[0][1]["ret"], p):
+                    F.append(Finding("C02", "mc.key-algorithm", "the key pair is not generated for the algorithm chosen from the preference list", None, None, p))
+                pk = save[0][1]["args"][1]
+                fields = dict(pk[2]) if pk[0] == "struct" else None
+                if fields is None:
+                    raise Shape("the value given to save_credential is not a struct literal (%s)" % tstr(pk)[:60])
+                if "credential_id" not in fields or not derives_from(fields["credential_id"], rv[0][1]["ret"], p):
+                    F.append(Finding("C02", "mc.credential-id-source", "the stored credential id is not the freshly generated random id", None, None, p))
+                if const_arg(rv[0][1]["args"][0]):
+                    F.append(Finding("C02", "mc.credential-id-length", "the credential id length is a constant, not the configured length", None, None, p))
+                rp_src = chase(fields.get("rp_id", ("const", "?")))
+                if rp_src[0] == "ref":
+                    rp_ok = ctx.is_input_ref(rp_src, ctx.mc["rp"], ctx.rp_id_idx)
+                elif rp_src == ctx.in_field(ctx.mc["rp"], ctx.rp_id_idx):
+                    rp_ok = True
+                else:
+                    rp_ok = ctx.input_place["mc"] in tstr(rp_src) or "%s.%d.%d" % (ctx.input_place["mc"], ctx.mc["rp"], ctx.rp_id_idx) in tstr(fields.get("rp_id"))
+                if not rp_ok:
+                    F.append(Finding("C02", "mc.stored-rp-id", "the stored credential's rp_id is not the request's rp.id (%s)" % tstr(fields.get("rp_id"))[:80], mc_scenario(p, ctx),
+                                     lambda o: any(c["call"] == "save" and c["rp_id"] != "example.com" for c in o["log"]), p))
+                if "key" not in fields or not derives_from(fields["key"], fsk[0][1]["ret"], p):
+                    F.append(Finding("C02", "mc.stored-key", "the stored private key does not come from the generated key pair", None, None, p))
+                new = calls(p, "AuthenticatorData::new")
+                if new:
+                    a0 = chase(new[-1][1]["args"][0])
+                    if a0[0] == "via":
+                        a0 = chase(a0[2])
+                    if not ctx.is_input_ref(a0, ctx.mc["rp"], ctx.rp_id_idx):
+                        F.append(Finding("C02", "mc.authdata-rp-id", "the authenticator data is built for %s, not the request's rp.id" % tstr(a0)[:80], None, None, p))
 
         if "C09" in want:
             me = calls(p, "make_extensions")
